@@ -218,8 +218,9 @@ func (p c05) hostileSession(c *fw.Ctx, uniq *int) []string {
 			"print([V, V + 1])", "print(eval(\"V + 1\"))", "V := \"s\"; print(V)", "V := V * 1.5; print(V)", "V := [V]; print(V)", "V := V + 1; print(V)", "print(-V, V << 2, V % 2, !(V == 1))",
 			"t = t + V", "h = () => V; print(h())", "V = V + 1; print(V)", "V++; print(V)", "--V; print(V)", "print(V++)", "if V == 1 {continue}", "x = V; x = x + 1; print(x, V)", "m[V] = V; print(m)",
 			"a[V] = V * 2; print(a)", "mm = {1: V}; print(mm)", "print(len(a) + V, first(a) * V)", "print(V == 1 && V < 2 || V > 5)", "w = [V]; w[0] = 7; print(w, V)", "print(sprintf(\"%d\", V))",
-			"print(if V > 0 {V} else {-V})", "print(mf.V(V))", "for q = V {print(q)}", "for q = V:3 {print(q)}", "print(a[V], a[-V])", "eval(\"t = t + V\")"}
-		setup := "a = [10, 20, 30, 40]; m = {\"V\": 5, \"k\": 1, 1: \"one\"}; mf = {\"V\": z => z * 3}; s = \"hello\"; t = 0"
+			"print(if V > 0 {V} else {-V})", "print(mf.V(V))", "for q = V {print(q)}", "for q = V:3 {print(q)}", "print(a[V], a[-V])", "eval(\"t = t + V\")",
+			"cv = catch(V)", "print(quote(V + 1))", "qv = quote(V)", "cv = [catch(V), catch(V + 1)]"}
+		setup := "cv = 0; qv = 0; a = [10, 20, 30, 40]; m = {\"V\": 5, \"k\": 1, 1: \"one\"}; mf = {\"V\": z => z * 3}; s = \"hello\"; t = 0"
 		var body []string
 		for k := 0; k < 1+r.IntN(4); k++ {
 			body = append(body, uses[r.IntN(len(uses))])
@@ -232,7 +233,7 @@ func (p c05) hostileSession(c *fw.Ctx, uniq *int) []string {
 			if strings.Contains(loop, "continue") && r.IntN(2) == 0 {
 				loop = strings.Replace(loop, "continue", "break", 1)
 			}
-			in = append(in, strings.ReplaceAll(setup, "V", v), strings.ReplaceAll(loop, "V", v), "[a, m, s, t]")
+			in = append(in, strings.ReplaceAll(setup, "V", v), strings.ReplaceAll(loop, "V", v), "for jq = 7 {}", "[a, m, s, t, cv, qv]")
 		} else {
 			fn := fresh("f")
 			b := strings.ReplaceAll(strings.Join(body, "; "), "continue", "return 0")
@@ -240,7 +241,7 @@ func (p c05) hostileSession(c *fw.Ctx, uniq *int) []string {
 			for k := 0; k < 1+r.IntN(3); k++ {
 				in = append(in, fn+"("+[]string{"1", "2", "0", "3", "2.5", "\"s\""}[r.IntN(6)]+", "+[]string{"1", "7", "\"w\""}[r.IntN(3)]+")")
 			}
-			in = append(in, "[a, m, s, t]")
+			in = append(in, "for jq = 7 {}", "[a, m, s, t, cv, qv]")
 		}
 	default: // loop variable used as index / in containers / shifted
 		v := fresh("i")
